@@ -136,31 +136,28 @@ Proof.
 Qed.
 
 (* ---- the configuration set ---- *)
-Definition key_choices (T : tables) (pol : string) (m : Z) : list Z :=
-  if m =? 1 then [0] else filter (asym_accept (t_rows T) pol) key_sizes.
-
 Lemma in_configs_of_policy : forall T pol c,
   In c (configs_of_policy T pol) <->
   c_pol c = pol /\ In (c_mode c) modes /\ 0 < level_of (t_levels T) pol (c_mode c) /\
-  In (c_kb c) (key_choices T pol (c_mode c)) /\ token_advertised T c = true.
+  In (c_kb c, c_skb c) (key_pairs T pol (c_mode c)) /\ token_advertised T c = true.
 Proof.
   intros T pol c. unfold configs_of_policy. rewrite in_flat_map. split.
   - intros [m [Hm H]]. destruct (0 <? level_of (t_levels T) pol m) eqn:El; [|destruct H].
-    apply in_flat_map in H. destruct H as [kb [Hkb H]]. apply in_flat_map in H. destruct H as [t [Ht H]].
+    apply in_flat_map in H. destruct H as [kp [Hkp H]]. apply in_flat_map in H. destruct H as [t [Ht H]].
     cbv zeta in H.
-    destruct (token_advertised T {| c_pol := pol; c_mode := m; c_kb := kb; c_tok := t |}) eqn:Ea; [|destruct H].
-    destruct H as [H|[]]. subst c. cbn [c_pol c_mode c_kb c_tok].
-    apply Z.ltb_lt in El. unfold key_choices. auto.
+    destruct (token_advertised T {| c_pol := pol; c_mode := m; c_kb := fst kp; c_skb := snd kp; c_tok := t |}) eqn:Ea; [|destruct H].
+    destruct H as [H|[]]. subst c. cbn [c_pol c_mode c_kb c_skb c_tok].
+    apply Z.ltb_lt in El. rewrite <- surjective_pairing. auto.
   - intros [Hp [Hm [Hl [Hk Ha]]]]. exists (c_mode c). split; [exact Hm|].
-    apply Z.ltb_lt in Hl. rewrite Hl. apply in_flat_map. exists (c_kb c). split; [exact Hk|].
+    apply Z.ltb_lt in Hl. rewrite Hl. apply in_flat_map. exists (c_kb c, c_skb c). split; [exact Hk|].
     apply in_flat_map. exists (c_tok c). split; [destruct (c_tok c); cbn; auto|].
-    cbv zeta. destruct c as [p m k t]. cbn [c_pol c_mode c_kb c_tok] in *. subst p. rewrite Ha. left. reflexivity.
+    cbv zeta. destruct c as [p m k sk t]. cbn [c_pol c_mode c_kb c_skb c_tok fst snd] in *. subst p. rewrite Ha. left. reflexivity.
 Qed.
 
 Lemma in_all_configs : forall T c,
   In c (all_configs T) <->
   In (c_pol c) (t_supported T) /\ In (c_mode c) modes /\ 0 < level_of (t_levels T) (c_pol c) (c_mode c) /\
-  In (c_kb c) (key_choices T (c_pol c) (c_mode c)) /\ token_advertised T c = true.
+  In (c_kb c, c_skb c) (key_pairs T (c_pol c) (c_mode c)) /\ token_advertised T c = true.
 Proof.
   intros T c. unfold all_configs. rewrite in_flat_map. split.
   - intros [pol [Hs H]]. apply in_configs_of_policy in H. destruct H as [Hp H]. subst pol. auto.
